@@ -451,3 +451,22 @@ Example C13_writers_are_source_inhabited :
   length (bytes_of_items (map snd (fst (gwritePSIData ex_psi)))) = 30%nat /\
   computeCRC32 (firstn 29 (skipn 1 (bytes_of_items (map snd (fst (gwritePSIData ex_psi)))))) = 0.
 Proof. exact psi_writer_runs. Qed.
+
+(* PSIData.toData is regenerated too (Gen/RestData.v: go/gen/restgen.go through the statement translator of
+   go/gen/demuxgen.go, in the outcome monad).  On every PSIData whose sections with syntax data have a header — every one the
+   parser builds — the regenerated function returns exactly psi_to_data, the subject of C13_to_data / C13_to_data_order:
+   the same DemuxerData in the same order, each with the first packet and the PID; where a section has syntax data but no
+   header the Go code dereferences nil (s.Header.TableID) and the regenerated function is Panicked (the model skips such a
+   section).  A loop that skips a section, a case of the switch that stores another table or a changed EIT range breaks
+   this proof. *)
+Require Import Gen.DemuxGen Gen.RestData Proofs.RestGenData.
+Theorem C13_to_data_is_source : forall (W : Type) d fp pid (w : W),
+  PSIData_toData W (PSIData_PointerField d) (PSIData_Sections d) (Some fp) pid w =
+  if forallb section_safe (PSIData_Sections d) then Done (psi_to_data d fp pid, w) else Panicked.
+Proof. exact to_data_is_generated. Qed.
+Print Assumptions C13_to_data_is_source.
+Example C13_to_data_is_source_inhabited :
+  PSIData_toData unit 0 [ex_td_section 0; ex_td_section 1] (Some zero_Packet) 32 tt =
+    Done ([demuxer_data zero_Packet 32 None None (Some {| PATData_Programs := []; PATData_TransportStreamID := 7 |}) None None None], tt) /\
+  PSIData_toData unit 0 [ex_td_section 0; ex_td_headerless] (Some zero_Packet) 32 tt = Panicked.
+Proof. exact to_data_runs. Qed.
